@@ -469,13 +469,36 @@ where
             .get(index as usize)
             .ok_or(VhostUserError::InvalidParam)?;
 
+        // If the vring is already started, the descriptor being replaced may be registered
+        // with its worker: drop that registration before the descriptor goes away, then
+        // register the new one according to the current vring state.
+        let started = vring.get_ref().get_queue().ready();
+        if started {
+            if let Some(fd) = vring.get_ref().get_kick() {
+                for (thread_index, queues_mask) in self.queues_per_thread.iter().enumerate() {
+                    let shifted_queues_mask = queues_mask >> index;
+                    if shifted_queues_mask & 1u64 == 1u64 {
+                        let evt_idx = queues_mask.count_ones() - shifted_queues_mask.count_ones();
+                        let _ = self.handlers[thread_index].unregister_event(
+                            fd.as_raw_fd(),
+                            EventSet::IN,
+                            u64::from(evt_idx),
+                        );
+                        break;
+                    }
+                }
+            }
+        }
+
         // SAFETY: EventFd requires that it has sole ownership of its fd. So
         // does File, so this is safe.
         // Ideally, we'd have a generic way to refer to a uniquely-owned fd,
         // such as that proposed by Rust RFC #3128.
         vring.set_kick(file);
 
-        if self.vring_needs_init(vring) {
+        if started {
+            self.update_vring_registration(vring, index)?;
+        } else if self.vring_needs_init(vring) {
             self.initialize_vring(vring, index)?;
         }
 
